@@ -106,7 +106,7 @@ func Verif_C10_Faults(cfg int) {
 	if verifTier() == 1 {
 		pre = 2
 	}
-	w.history(pre, []int{0, 1, 2}, false, false)
+	w.history(pre, []int{0, 1, 2, 3}, false, false)
 	budget := 1
 	if verifTier() == 1 || op >= 3 {
 		budget = 2
